@@ -34,7 +34,7 @@ def facts_from_run(repo):
                 f = None; u.failed[(impl, name)] = "translator crashed: %r" % (e,)
             qn = (impl + "::" if impl else "") + name
             out[(tg["area"], qn)] = {"translated": f is not None, "why": None if f else u.failed.get((impl, name)),
-                                     "tied_by": thm, "property": prop,
+                                     "tied_by": thm, "property": prop, "props_module": tg.get("props_module") or (prop + "Fn"),
                                      "sha1": hashlib.sha1(f.text.encode()).hexdigest()[:12] if f else None}
     return out
 
@@ -47,7 +47,7 @@ def facts_from_info(path):
         for qn, d in ent.get("facts", {}).get("fn_gen", {}).items():
             area = d.get("area") or (d.get("lean", "").split(".")[2][2:] if d.get("lean") else "?")
             out[(area, qn)] = {"translated": d.get("translated", True), "why": d.get("why"), "tied_by": d.get("tied_by"),
-                               "property": prop, "sha1": d.get("sha1")}
+                               "property": prop, "props_module": d.get("props_module") or (prop + "Fn"), "sha1": d.get("sha1")}
     return out
 
 
@@ -56,8 +56,8 @@ def check(facts, gen_dir=None):
     bad = []
     for (area, qn), d in sorted(facts.items()):
         if d["tied_by"] and not d["translated"]:
-            bad.append("Gen.Fn%s: %s is NOT TRANSLATED but tied by theorem %s (Props/%sFn.lean): %s" % (
-                area, qn, d["tied_by"], d["property"], d["why"]))
+            bad.append("Gen.Fn%s: %s is NOT TRANSLATED but tied by theorem %s (Props/%s.lean): %s" % (
+                area, qn, d["tied_by"], d["props_module"], d["why"]))
     if gen_dir and os.path.isdir(gen_dir):
         tied = {}
         for (area, qn), d in facts.items():
